@@ -257,6 +257,30 @@ def C18(ctx):
     cli.run(ctx, (False, False, True, False), 40 if ctx.quick else 600, 14 if ctx.quick else 30)
 
 
+def C01(ctx):
+    ctx.rules.append('every program of families T (result type a named type / alias of 20 Go type kinds, variadic injector), R (all flavours, n<=3), B, S, K-otherpkg, Q (legal signature shapes), M (sets over three packages), '
+                     'U, X (several injectors in several files, foreign structs with unexported fields) for which gen reports success; non-trivial = success reported; '
+                     'oracle: go build of the package with default tags, with a typed function-variable assignment per injector (signature identity), judged by TLC (wrote => built)')
+    exprs = [('FamilyT(p)', None), ('FamilyR(p, 3)', 200), ('FamilyB(p)', 200), ('FamilyS(p)', None), ('FamilyQ(p, 3)', None),
+             ('FamilyM(p, {1, 2, 3})', 150), ('FamilyU(p)', None), ('FamilyX(p, XVariants)', None), ('FamilyK(p, {"T1"})', 60), (G(3), 200)]
+    nt = lambda c: verdict(c) != 'no'
+    for expr, k in exprs:
+        cases = ctx.export(expr, pre_sample=(k if ctx.quick else (k * 10 if k else None)))
+        ctx.run(only_success(cases), nontrivial=nt, runtime=False, build=True)
+
+
+def C20(ctx):
+    ctx.rules.append('family F (WireFront): every argument position of Build/NewSet/Struct/FieldsOf/Bind/Value/InterfaceValue x 40 expression forms '
+                     '(identifiers of every object kind, nil, literals, new of named/anonymous/generic/pointer/interface/composite types, address-of, pointer variables, conversions, parenthesised forms, '
+                     'function literals, method values, call results, other-package sets), 10 field-name forms, 23 whole-file shapes (dot-imported and aliased wire, multi-value set variables, '
+                     'Build in odd places, generic injector, odd result lists); each under gen and under check; family T result kinds; non-trivial = every case; '
+                     'judge: exit 0, or non-zero with at least one diagnostic carrying a file:line:col inside the module; never a panic, hang or silent failure')
+    cases = ctx.export('FamilyF(p)', extends='WireFront', caseop='CaseF')
+    ctx.res.cov['exhaustive'] = True
+    ctx.run(cases, runtime=False, check=True, build=False, gate=True, allow_typeerr=())
+    ctx.run(only_success(ctx.export('FamilyT(p)')), runtime=False, check=True, build=False)
+
+
 def C19(ctx):
     import cli
     ctx.rules.append('every program of families G (n<=3), K, Q, B, U run through gen AND check (same verdict, same diagnostic classes per package); '
@@ -273,6 +297,7 @@ def C19(ctx):
 
 
 PROPS = {
+    'C01': dict(fn=C01, level='exploration'),
     'C02': dict(fn=C02, level='model_checking'),
     'C03': dict(fn=C03, level='model_checking'),
     'C04': dict(fn=C04, level='model_checking'),
@@ -287,6 +312,7 @@ PROPS = {
     'C17': dict(fn=C17, level='model_checking'),
     'C18': dict(fn=C18, level='model_checking'),
     'C19': dict(fn=C19, level='model_checking'),
+    'C20': dict(fn=C20, level='exploration'),
 }
 
 
